@@ -192,6 +192,32 @@ def ops : List (String × Handler) := [
             let raw ← s.pack
             decodeBack s raw
             pure (raw, s)))),
+  -- round trip for ANY accepted PFC (C15_report_roundtrip_any_pfc): build, pack, decode the packed
+  -- octets (plus a suffix) with the widths of the report's own fields, compare, re-pack
+  ("s1_roundtrip", fun j => do
+      let vp ← getVp (← field j "params")
+      let apid ← getInt j "apid"
+      let sub ← getInt j "subservice"
+      let ts ← getHex j "timestamp"
+      let count ← getInt j "count"
+      let ver ← getNat j "version"
+      let tref ← getNat j "time_ref"
+      let dst ← getNat j "dest_id"
+      let suffix ← getHex j "suffix"
+      pure (res (fun (r : Bytes × S1Tm × Bool × Bytes) =>
+          obj [("raw", jh r.1), ("back", s1J r.2.1), ("eq", jb r.2.2.1), ("repack", jh r.2.2.2)])
+        (do let p ← vp
+            let s ← S1Tm.new apid sub ts (some p) count ver tref dst
+            let raw ← s.pack
+            let sb ← match s.params.stepId with
+              | none => pure 1
+              | some f => f.len
+            let eb ← match s.params.failure with
+              | none => pure 1
+              | some f => f.code.len
+            let s' ← S1Tm.unpack (raw ++ suffix) s.tm.sec.timestamp.length sb eb
+            let raw' ← s'.pack
+            pure (raw, s', s'.beq s, raw')))),
   ("s1_unpack", fun j => do
       pure (res s1J (S1Tm.unpack (← getHex j "raw") (← getNat j "ts_len") (← getNat j "step_bytes") (← getNat j "err_bytes"))))
 ]
